@@ -512,4 +512,363 @@ theorem opSubtract_repr (cfg : Cfg) : OpRepr true (opSubtract cfg) := opRepr_of_
   · exact key
   · rw [opSubtract_fastpath flags m a c h.1, opSubtract_fastpath flags m a' c h.2.1]; exact key
 
+/-! ### substr -/
+
+/-- argument decoding and index validation of `op_substr` (everything before `new_substr`) -/
+def substrParse (input : Val) : Except Err (Val × Nat × Nat) :=
+  match getVarargs 3 input "substr" with
+  | .error e => .error e
+  | .ok l =>
+    let argc := l.length
+    if argc < 2 ∨ argc > 3 then .error (.InvalidOpArg s!"Substring takes exactly 2 or 3 arguments, got {argc}")
+    else
+      let a0 := l.getD 0 Val.nil
+      let startN := l.getD 1 Val.nil
+      let endN := l.getD 2 Val.nil
+      match atomLen a0 "substr" with
+      | .error e => .error e
+      | .ok size =>
+        match i32Atom startN "substr" with
+        | .error e => .error e
+        | .ok start =>
+          let endR : Except Err Int := if argc == 3 then i32Atom endN "substr" else .ok (size : Int)
+          match endR with
+          | .error e => .error e
+          | .ok end_ =>
+            if end_ < 0 ∨ start < 0 ∨ end_.toNat > size ∨ end_ < start then
+              .error (.InvalidOpArg "Invalid Indices for Substring")
+            else .ok (a0, start.toNat, end_.toNat)
+
+theorem opSubstr_eq (flags m : Nat) (input : Val) (c : Ctr) :
+    opSubstr flags m input c =
+      match substrParse input with
+      | .error e => .error e
+      | .ok (a0, s, e) =>
+        match newSubstr c a0 s e with
+        | .error e => .error e
+        | .ok (r, c') => .ok (if newModel flags then Gen.NEW_SUBSTR_COST else 1, r, c') := by
+  unfold opSubstr substrParse
+  cases getVarargs 3 input "substr" with
+  | error e => rfl
+  | ok l =>
+    simp only []
+    split
+    · rfl
+    · cases atomLen (l.getD 0 Val.nil) "substr" with
+      | error e => rfl
+      | ok size =>
+        simp only []
+        cases i32Atom (l.getD 1 Val.nil) "substr" with
+        | error e => rfl
+        | ok start =>
+          simp only []
+          cases (if (l.length == 3) = true then i32Atom (l.getD 2 Val.nil) "substr" else Except.ok (size : Int)) with
+          | error e => rfl
+          | ok end_ =>
+            simp only []
+            split <;> rfl
+
+theorem ListReq.getD {l l' : List Val} (h : ListReq l l') (i : Nat) : Req (l.getD i Val.nil) (l'.getD i Val.nil) := by
+  induction h generalizing i with
+  | nil => exact Req.nil
+  | cons hx _ ih =>
+    cases i with
+    | zero => exact hx
+    | succ i => simpa using ih i
+
+/-- a successful parse selects an atom and valid bounds -/
+theorem substrParse_ok {input a0 : Val} {s e : Nat} (h : substrParse input = .ok (a0, s, e)) :
+    ∃ b t, a0 = .atom b t ∧ s ≤ e ∧ e ≤ b.length := by
+  unfold substrParse at h
+  cases hg : getVarargs 3 input "substr" with
+  | error e => rw [hg] at h; cases h
+  | ok l =>
+    rw [hg] at h
+    simp only [] at h
+    split at h
+    · cases h
+    · cases ha : l.getD 0 Val.nil with
+      | pair _ _ => rw [ha] at h; simp [atomLen] at h
+      | atom b t =>
+        rw [ha] at h
+        simp only [atomLen] at h
+        cases hs : i32Atom (l.getD 1 Val.nil) "substr" with
+        | error e => rw [hs] at h; cases h
+        | ok start =>
+          rw [hs] at h
+          simp only [] at h
+          cases he : (if (l.length == 3) = true then i32Atom (l.getD 2 Val.nil) "substr"
+              else Except.ok (b.length : Int)) with
+          | error e => rw [he] at h; cases h
+          | ok end_ =>
+            rw [he] at h
+            simp only [] at h
+            split at h
+            · cases h
+            · rename_i hb
+              simp only [Except.ok.injEq, Prod.mk.injEq] at h
+              obtain ⟨h1, h2, h3⟩ := h
+              subst h1; subst h2; subst h3
+              exact ⟨b, t, rfl, by omega, by omega⟩
+
+theorem substrParse_req {a a' : Val} (h : Req a a') :
+    ArgsRel (fun p p' => Req p.1 p'.1 ∧ p.2 = p'.2) (substrParse a) (substrParse a') := by
+  unfold substrParse
+  rcases (getVarargs_req h 3 "substr").cases' with ⟨e, h1, h2⟩ | ⟨l, l', h1, h2, hl⟩
+  · rw [h1, h2]; exact .err e
+  · rw [h1, h2]
+    simp only [hl.length_eq, atomLen_req (hl.getD 0), i32Atom_req (hl.getD 1), i32Atom_req (hl.getD 2)]
+    split
+    · exact .err _
+    · cases atomLen (l'.getD 0 Val.nil) "substr" with
+      | error e => exact .err e
+      | ok size =>
+        simp only []
+        cases i32Atom (l'.getD 1 Val.nil) "substr" with
+        | error e => exact .err e
+        | ok start =>
+          simp only []
+          cases (if (l'.length == 3) = true then i32Atom (l'.getD 2 Val.nil) "substr" else Except.ok (size : Int)) with
+          | error e => exact .err e
+          | ok end_ =>
+            simp only []
+            split
+            · exact .err _
+            · exact .ok _ _ ⟨hl.getD 0, rfl⟩
+
+/-- the defect region of DESIGN §6-C, as a decidable predicate of the two argument lists: the
+source atom is inline in exactly one of the two runs and the selected sub-string is not a
+canonical small integer (so the inline run appends it to the heap and the other one does not) -/
+def substrDefect (a a' : Val) : Bool :=
+  match substrParse a, substrParse a' with
+  | .ok (.atom b t, s, e), .ok (.atom _ t', _, _) =>
+    (t != t') && (fitsInSmallAtom ((b.drop s).take (e - s))).isNone
+  | _, _ => false
+
+/-- `new_substr` on the two representations of the same (well-formed) atom -/
+theorem newSubstr_tag (c : Ctr) (b : Bytes) (hb : SmallFacts b) (s e : Nat) :
+    newSubstr c (.atom b true) s e =
+      match newSubstr c (.atom b false) s e with
+      | .error err => .error err
+      | .ok (_, c') =>
+        let sub := (b.drop s).take (e - s)
+        match fitsInSmallAtom sub with
+        | some _ => .ok (.atom sub true, c')
+        | none => .ok (.atom sub false, { c' with heap := c'.heap + sub.length }) := by
+  unfold newSubstr
+  cases c.checkAtomLimit with
+  | error err => rfl
+  | ok u =>
+    simp only [hb.len]
+    split
+    · rfl
+    · split
+      · rfl
+      · split
+        · rfl
+        · simp only []
+          generalize fitsInSmallAtom _ = f
+          cases f <;> rfl
+
+theorem opSubstr_repr : OpRepr false opSubstr := opRepr_of_req fun flags m a a' c h => by
+  rw [opSubstr_eq, opSubstr_eq]
+  rcases (substrParse_req h).cases' with ⟨e, h1, h2⟩ | ⟨⟨a0, s, e⟩, ⟨a0', s', e'⟩, h1, h2, ha0, hse⟩
+  · rw [h1, h2]; exact .err _ e
+  · rw [h1, h2]
+    simp only at ha0 hse
+    obtain ⟨hs, he⟩ := Prod.mk.inj hse
+    subst hs; subst he
+    obtain ⟨b, t, rfl, _, _⟩ := substrParse_ok h1
+    cases ha0.cases with
+    | atom _ _ t' ht ht' =>
+      have key : ∀ (hb : SmallFacts b),
+          ResEraseEq false
+            (match newSubstr c (.atom b true) s e with
+              | .error e => .error e
+              | .ok (r, c') => .ok (if newModel flags then Gen.NEW_SUBSTR_COST else 1, r, c'))
+            (match newSubstr c (.atom b false) s e with
+              | .error e => .error e
+              | .ok (r, c') => .ok (if newModel flags then Gen.NEW_SUBSTR_COST else 1, r, c')) := by
+        intro hb
+        rw [newSubstr_tag c b hb]
+        cases hn : newSubstr c (.atom b false) s e with
+        | error err => exact .err _ err
+        | ok p =>
+          obtain ⟨r, c'⟩ := p
+          have hr : r = .atom ((b.drop s).take (e - s)) false := by
+            unfold newSubstr at hn
+            cases hcl : c.checkAtomLimit with
+            | error err => rw [hcl] at hn; cases hn
+            | ok u =>
+              rw [hcl] at hn
+              simp only [] at hn
+              split at hn
+              · cases hn
+              · split at hn
+                · cases hn
+                · split at hn
+                  · cases hn
+                  · cases hn; rfl
+          subst hr
+          simp only []
+          cases fitsInSmallAtom ((b.drop s).take (e - s)) with
+          | some v => exact ⟨rfl, rfl, rfl, rfl, rfl, fun hh => by cases hh⟩
+          | none => exact ⟨rfl, rfl, rfl, rfl, rfl, fun hh => by cases hh⟩
+      cases t <;> cases t'
+      · exact ResEraseEq.refl_wf _ _
+      · exact (ResEraseEq.symm (key (ht' rfl)))
+      · exact key (ht rfl)
+      · exact ResEraseEq.refl_wf _ _
+
+/-- heap accounting of `new_substr`: only an inline source whose sub-string is not a canonical
+small integer grows the heap -/
+theorem newSubstr_heap {c c' : Ctr} {b : Bytes} {t : Bool} {s e : Nat} {r : Val}
+    (h : newSubstr c (.atom b t) s e = .ok (r, c')) :
+    c'.heap = c.heap + (if t && (fitsInSmallAtom ((b.drop s).take (e - s))).isNone
+      then ((b.drop s).take (e - s)).length else 0) := by
+  unfold newSubstr at h
+  cases hcl : c.checkAtomLimit with
+  | error err => rw [hcl] at h; cases h
+  | ok u =>
+    rw [hcl] at h
+    cases t with
+    | false =>
+      simp only [] at h
+      split at h
+      · cases h
+      · split at h
+        · cases h
+        · split at h
+          · cases h
+          · cases h; first | rfl | simp
+    | true =>
+      simp only [] at h
+      split at h
+      · cases h
+      · split at h
+        · cases h
+        · split at h
+          · cases h
+          · cases hf : fitsInSmallAtom ((b.drop s).take (e - s)) with
+            | some v => rw [hf] at h; cases h; simp
+            | none => rw [hf] at h; cases h; simp
+
+theorem opSubstr_heap {flags m : Nat} {a : Val} {c : Ctr} {x : Nat × Val × Ctr} {b : Bytes} {t : Bool} {s e : Nat}
+    (hp : substrParse a = .ok (.atom b t, s, e)) (h : opSubstr flags m a c = .ok x) :
+    x.2.2.heap = c.heap + (if t && (fitsInSmallAtom ((b.drop s).take (e - s))).isNone
+      then ((b.drop s).take (e - s)).length else 0) := by
+  rw [opSubstr_eq, hp] at h
+  simp only [] at h
+  cases hn : newSubstr c (.atom b t) s e with
+  | error err => rw [hn] at h; cases h
+  | ok p =>
+    obtain ⟨r, c'⟩ := p
+    rw [hn] at h
+    cases h
+    exact newSubstr_heap hn
+
+theorem fits_none_length_pos {b : Bytes} (h : (fitsInSmallAtom b).isNone = true) : 0 < b.length := by
+  cases b with
+  | nil => simp [fitsInSmallAtom, fitsInSmallAtomE] at h
+  | cons _ _ => simp
+
+/-- the two argument lists parse to the same atom bytes and bounds -/
+theorem substrParse_req_atom {a a' : Val} (h : Req a a') {b : Bytes} {t : Bool} {s e : Nat}
+    (hp : substrParse a = .ok (.atom b t, s, e)) : ∃ t', substrParse a' = .ok (.atom b t', s, e) := by
+  rcases (substrParse_req h).cases' with ⟨e, h1, h2⟩ | ⟨⟨a0, s1, e1⟩, ⟨a0', s', e'⟩, h1, h2, ha0, hse⟩
+  · rw [hp] at h1; cases h1
+  · rw [hp] at h1
+    cases h1
+    simp only at ha0 hse
+    obtain ⟨hs, he⟩ := Prod.mk.inj hse
+    subst hs; subst he
+    cases ha0.cases with
+    | atom _ _ t' _ _ => exact ⟨t', h2⟩
+
+/-- **C03 for `op_substr`, heap included, outside the defect region** -/
+theorem opSubstr_repr_heap_partial (flags m : Nat) (a a' : Val) (c : Ctr)
+    (hw : a.wf = true) (hw' : a'.wf = true) (he : a.erase = a'.erase) (hd : substrDefect a a' = false) :
+    ResEraseEq true (opSubstr flags m a c) (opSubstr flags m a' c) := by
+  have h : Req a a' := ⟨hw, hw', he⟩
+  refine (opSubstr_repr flags m a a' c hw hw' he).strengthen ?_
+  intro x x' hx hx'
+  cases hp : substrParse a with
+  | error err => rw [opSubstr_eq, hp] at hx; cases hx
+  | ok p =>
+    obtain ⟨a0, s, e⟩ := p
+    obtain ⟨b, t, rfl, _, _⟩ := substrParse_ok hp
+    obtain ⟨t', hp'⟩ := substrParse_req_atom h hp
+    rw [opSubstr_heap hp hx, opSubstr_heap hp' hx']
+    simp only [substrDefect, hp, hp'] at hd
+    cases t <;> cases t' <;> simp_all <;> (intro hn; rw [hn] at hd; cases hd)
+
+/-- the region is exact: inside it two successful runs end with different heap sizes -/
+theorem opSubstr_repr_defect (flags m : Nat) (a a' : Val) (c : Ctr) (x x' : Nat × Val × Ctr)
+    (hw : a.wf = true) (hw' : a'.wf = true) (he : a.erase = a'.erase) (hd : substrDefect a a' = true)
+    (hx : opSubstr flags m a c = .ok x) (hx' : opSubstr flags m a' c = .ok x') :
+    x.2.2.heap ≠ x'.2.2.heap := by
+  have h : Req a a' := ⟨hw, hw', he⟩
+  cases hp : substrParse a with
+  | error err => rw [opSubstr_eq, hp] at hx; cases hx
+  | ok p =>
+    obtain ⟨a0, s, e⟩ := p
+    obtain ⟨b, t, rfl, _, _⟩ := substrParse_ok hp
+    obtain ⟨t', hp'⟩ := substrParse_req_atom h hp
+    rw [opSubstr_heap hp hx, opSubstr_heap hp' hx']
+    simp only [substrDefect, hp, hp', Bool.and_eq_true] at hd
+    have hpos := fits_none_length_pos hd.2
+    cases t <;> cases t' <;> simp_all <;> omega
+
+/-- the full statement for `op_substr` (false of the current code: `opSubstr_repr_witness`) -/
+def OpSubstrReprStatement : Prop := OpRepr true opSubstr
+
+def substrWitnessArgs (inl : Bool) : Val :=
+  .pair (.atom [0x00, 0x80] inl) (.pair (.atom [] true) (.pair (.atom [0x01] true) Val.nil))
+
+/-- DESIGN §6-C: `(substr 0x0080 0 1)` on the inline atom 128 appends the non-canonical byte `00`
+to the heap; on a heap atom with the same bytes it is a view -/
+theorem opSubstr_repr_witness :
+    (substrWitnessArgs true).wf = true ∧ (substrWitnessArgs false).wf = true ∧
+    (substrWitnessArgs true).erase = (substrWitnessArgs false).erase ∧
+    opSubstr 0 0 (substrWitnessArgs true) (Ctr.new 1000) =
+      .ok (1, .atom [0x00] false, { Ctr.new 1000 with atoms := (Ctr.new 1000).atoms + 1, heap := (Ctr.new 1000).heap + 1 }) ∧
+    opSubstr 0 0 (substrWitnessArgs false) (Ctr.new 1000) =
+      .ok (1, .atom [0x00] false, { Ctr.new 1000 with atoms := (Ctr.new 1000).atoms + 1 }) :=
+  ⟨by decide, by decide, by decide, by rfl, by rfl⟩
+
+theorem opSubstr_statement_false : ¬ OpSubstrReprStatement := by
+  intro h
+  have := h 0 0 (substrWitnessArgs true) (substrWitnessArgs false) (Ctr.new 1000) (by decide) (by decide) (by decide)
+  rw [opSubstr_repr_witness.2.2.2.1, opSubstr_repr_witness.2.2.2.2] at this
+  exact absurd (this.2.2.2.2.2 rfl) (by decide)
+
+/-! ### aggregates -/
+
+/-- **C03, operator level**: every operator of the core table except `op_substr` is independent of
+the representation of its arguments, heap size included -/
+theorem coreOps_repr (cfg : Cfg) (name : String) (f : OpFn) :
+    coreOpByName cfg name = some f → name ≠ "op_substr" → OpRepr true f := by
+  intro h hne
+  unfold coreOpByName at h
+  split at h <;> first
+    | (cases h; first
+        | exact opIf_repr | exact opCons_repr | exact opFirst_repr | exact opRest_repr | exact opListp_repr
+        | exact opRaise_repr | exact opEq_repr | exact opGrBytes_repr | exact opSha256_repr cfg
+        | exact opStrlen_repr | exact opConcat_repr | exact opAdd_repr cfg | exact opSubtract_repr cfg
+        | exact opMultiply_repr cfg | exact opDiv_repr | exact opDivmod_repr | exact opGr_repr cfg
+        | exact opAsh_repr | exact opLsh_repr | exact opLogand_repr | exact opLogior_repr
+        | exact opLogxor_repr | exact opLognot_repr | exact opNot_repr | exact opAny_repr | exact opAll_repr
+        | exact opModpow_repr | exact opMod_repr
+        | exact absurd rfl hne)
+    | cases h
+
+/-- all operators of the core table, heap size not compared -/
+theorem coreOps_repr_noheap (cfg : Cfg) (name : String) (f : OpFn) (h : coreOpByName cfg name = some f) :
+    OpRepr false f := by
+  by_cases hn : name = "op_substr"
+  · subst hn
+    have : f = opSubstr := by simp [coreOpByName] at h; exact h.symm
+    subst this; exact opSubstr_repr
+  · exact (coreOps_repr cfg name f h hn).weaken
+
 end Clvm.Interp
